@@ -18,6 +18,24 @@ impl Prop for C22 {
     }
 
     fn gen(&self, rng: &mut Rng, n: usize, tier: Tier, out: &mut Vec<String>) {
+        // (1) small-scope EXHAUSTIVE enumeration of single `update_state` steps: every state, both
+        // counters at 0..3 (every comparison of the table at, below and above its constant), every
+        // flag and every input combination — 10 240 steps; every row in every guard outcome.
+        for st in 0..5 {
+            for life in 0..4 {
+                out.push("reset 3 9 1 0".to_string());
+                for ka in 0..4 {
+                    for bits in 0..128u32 {
+                        let f = |k: u32| (bits >> k) & 1;
+                        out.push(format!(
+                            "us {} {} {} {} {} 9 3 {} {} {} {} {}",
+                            st, life, ka, f(0), f(1), f(2), f(3), f(4), f(5), f(6)
+                        ));
+                    }
+                }
+            }
+        }
+        // (2) histories
         for _ in 0..n {
             let big = tier == Tier::Thorough && rng.chance(1, 4);
             let ka: u64 = match rng.weighted(&[1, 6, 6, 4, 3, 2]) {
@@ -46,14 +64,18 @@ impl Prop for C22 {
             let item = rng.chance(1, 4);
             out.push(format!("reset {} {} {} {}", ka, life, b(enabled), b(item)));
             // regimes: 0 = requests always available, 1 = never, 2 = intermittent, 3 = chaotic
-            let regime = rng.weighted(&[5, 3, 3, 2]);
+            // 4 = served for a while, abandoned for longer than the lifetime, served again
+            let regime = rng.weighted(&[5, 3, 3, 2, 3]);
+            let served_for = rng.range(1, 2 * ka as i64 + 4);
             let writes = item && rng.chance(2, 3);
             let p_elapsed = *rng.pick(&[1u64, 1, 1, 2, 4]); // elapsed with probability 1 - 1/(p+1) ...
             let ticks = life as i64 + ka as i64 * 2 + rng.range(2, 12);
+            let ticks = if regime == 4 { served_for + life as i64 + 2 * ka as i64 + rng.range(6, 12) } else { ticks };
             let ticks = ticks.min(if tier == Tier::Thorough { 200 } else { 70 });
             let mut rid = 1u64;
             let burst = rng.range(1, 8);
             let mut since = 0i64;
+            let mut tick_no = 0i64;
             for _ in 0..ticks {
                 match regime {
                     0 => {
@@ -69,6 +91,14 @@ impl Prop for C22 {
                         since += 1;
                         if since >= burst {
                             since = 0;
+                            out.push(format!("pub {}", rid));
+                            rid += 1;
+                        }
+                    }
+                    4 => {
+                        tick_no += 1;
+                        let silent_until = served_for + life as i64 + ka as i64 + 4;
+                        if tick_no <= served_for || tick_no > silent_until {
                             out.push(format!("pub {}", rid));
                             rid += 1;
                         }
@@ -103,6 +133,7 @@ impl Prop for C22 {
             since_ka: 0,
             served_idle: true,
             never_req: true,
+            idle_run: 0,
             closed_seen: false,
         })
     }
@@ -120,6 +151,7 @@ struct R {
     since_ka: u64,     // publishing intervals elapsed since the last keep-alive response (or creation)
     served_idle: bool, // so far: a request was queued at every timer tick, and no data (no item)
     never_req: bool,   // so far: no publish request was ever sent
+    idle_run: u64,     // publishing intervals in a row with no request queued and nothing sent
     closed_seen: bool, // the subscription was seen Closed / removed / a status change was published
 }
 
@@ -224,8 +256,20 @@ impl Runner for R {
                         );
                     }
                 }
-                if !closed_now && self.never_req && self.life >= 1 && !self.closed_seen && self.n_elapsed > self.life {
-                    v = Verdict::fail("expires_on_time", class, format!("still open after {} intervals without publish requests, lifetime count {}", self.n_elapsed, self.life));
+                // "If the client sends no publish requests, the subscription is closed ... after about
+                // lifetime-count publishing intervals (within one interval)": also when the client STOPS
+                // sending them — count the intervals in a row with no request queued and nothing sent
+                if req_queued || !resps.is_empty() {
+                    self.idle_run = 0;
+                } else if counted {
+                    self.idle_run += 1;
+                }
+                if !closed_now && valid && !self.closed_seen && self.idle_run > self.life + 1 {
+                    v = Verdict::fail(
+                        "expires_on_time",
+                        class,
+                        format!("still open after {} intervals in a row without publish requests, lifetime count {}", self.idle_run, self.life),
+                    );
                 }
                 if let Some(f) = self.closing_checks(closed_now, class) {
                     v = f;
@@ -243,6 +287,7 @@ impl Runner for R {
                 let resps = w.take_responses();
                 let line = format!("ok res={} {}", if res.is_ok() { "ok" } else { "toomany" }, w.show_single(&resps));
                 self.never_req = false;
+                self.idle_run = 0;
                 let mut v = Verdict::Ok;
                 let kas = resps.iter().filter(|r| r.kind == "ka").count();
                 if kas > 0 {
@@ -262,6 +307,49 @@ impl Runner for R {
                     v = f;
                 }
                 (line, v)
+            }
+            ["us", st, life, ka, sent, en, ml, mk, t, na, more, req, ex] => {
+                // ONE call of the real `update_state` from an arbitrary position
+                let pb = |x: &str| x == "1";
+                let diag = std::sync::Arc::new(opcua::sync::RwLock::new(opcua::server::diagnostics::ServerDiagnostics::default()));
+                let mut sub = opcua::server::subscriptions::subscription::Subscription::new(
+                    diag,
+                    1,
+                    pb(en),
+                    INTERVAL_MS,
+                    ml.parse().unwrap(),
+                    mk.parse().unwrap(),
+                    0,
+                );
+                sub.verif_set_position(st.parse().unwrap(), life.parse().unwrap(), ka.parse().unwrap(), pb(sent));
+                let r = std::panic::catch_unwind(std::panic::AssertUnwindSafe(|| {
+                    opcua::verif_hooks::subs::subscription_update_state(&mut sub, pb(t), pb(na), pb(more), pb(req), pb(ex))
+                }));
+                let line = match r {
+                    Err(_) => "ok row=panic".to_string(),
+                    Ok((row, action)) => {
+                        use opcua::server::subscriptions::subscription::UpdateStateAction as A;
+                        let a = match action {
+                            A::None => "none",
+                            A::ReturnKeepAlive => "keepAlive",
+                            A::ReturnNotifications => "notifications",
+                            A::SubscriptionCreated => "created",
+                            A::SubscriptionExpired => "expired",
+                        };
+                        format!(
+                            "ok row={} act={} st={} life={} ka={} sent={}",
+                            row,
+                            a,
+                            sub.verif_state(),
+                            sub.lifetime_counter(),
+                            sub.keep_alive_counter(),
+                            b(sub.message_sent())
+                        )
+                    }
+                };
+                // the two panics of update_state are unreachable from tick() with revised counts
+                // (ReceivePublishRequest together with timer expiry; lifetime counter 0); no claim here
+                (line, Verdict::Ok)
             }
             _ => ("bad-op".to_string(), Verdict::Ok),
         }
